@@ -17,6 +17,8 @@ func main() {
 	runs := fs.Int("runs", 10, "number of runs")
 	from := fs.Int("from", 0, "first run index")
 	steps := fs.Int("steps", 400, "adversary steps per run")
+	heights := fs.Int("heights", 3, "heights to decide (timed drivers)")
+	dyn := fs.Bool("dyn", false, "sync driver: dynamic block time extension in every run")
 	out := fs.String("out", "/dev/stdout", "ndjson trace file")
 	_ = fs.Parse(os.Args[2:])
 	w := NewTraceWriter(*out)
@@ -25,6 +27,14 @@ func main() {
 	case "async":
 		for r := *from; r < *from+*runs; r++ {
 			runAsync(w, *seed, r, *steps)
+		}
+	case "sync":
+		for r := *from; r < *from+*runs; r++ {
+			runSync(w, *seed, r, *heights, *dyn)
+		}
+	case "faults":
+		for r := *from; r < *from+*runs; r++ {
+			runFaults(w, *seed, r, *heights)
 		}
 	case "open":
 		for r := *from; r < *from+*runs; r++ {
